@@ -1,0 +1,36 @@
+//go:build verif
+
+// Verification hooks for property C19 (date/time <-> serial number): thin
+// exported wrappers around the unexported conversion functions of date.go and
+// cell.go so that the correspondence harness can call them in-process without
+// building a worksheet for each of the ~3 million days it sweeps. Compiled
+// only with `-tags verif`; adds code and changes none.
+
+package excelize
+
+import "time"
+
+// VerifC19SetCellTime runs (*xlsxC).setCellTime on a fresh cell and returns
+// what SetCellValue would store for a time.Time: the raw value text, the cell
+// type attribute and whether the value was stored as a number.
+func VerifC19SetCellTime(t time.Time, date1904 bool) (v, typ string, isNum bool, err error) {
+	c := &xlsxC{}
+	isNum, err = c.setCellTime(t, date1904)
+	return c.V, c.T, isNum, err
+}
+
+// VerifC19TimeToExcelTime exposes timeToExcelTime.
+func VerifC19TimeToExcelTime(t time.Time, date1904 bool) (float64, error) {
+	return timeToExcelTime(t, date1904)
+}
+
+// VerifC19TimeFromExcelTime exposes timeFromExcelTime (ExcelDateToTime without
+// the negative-input guard).
+func VerifC19TimeFromExcelTime(x float64, date1904 bool) time.Time {
+	return timeFromExcelTime(x, date1904)
+}
+
+// VerifC19Fliegel exposes doTheFliegelAndVanFlandernAlgorithm.
+func VerifC19Fliegel(jd int) (day, month, year int) {
+	return doTheFliegelAndVanFlandernAlgorithm(jd)
+}
